@@ -81,6 +81,7 @@ def scenarios():
 # ------------------------------------------------------------------------------------------------ the forgery menu
 def menu(w, e, sa, authentic, tier, rnd):
     """Concrete datagrams that are NOT protected under the keys `sa` expects (label, bytes)."""
+    accepted = list(getattr(w, 'delivered', {}).get(e, []))
     peer_view = {'spi_i': sa.spi_i, 'spi_r': sa.spi_r}
     right_flag = not sa.is_initiator           # the flag the *peer* would set
     mids = sorted({max(sa.peer_msg_id - 1, 0), sa.peer_msg_id, sa.peer_msg_id + 1, sa.my_msg_id, max(sa.my_msg_id - 1, 0), 0, 2 ** 32 - 1})
@@ -111,6 +112,18 @@ def menu(w, e, sa, authentic, tier, rnd):
     for data in {bytes(getattr(sa, 'last_sent_response_data', b'') or b''), bytes(sa.request.to_bytes()) if sa.request is not None else b''}:
         if data:
             yield 'reflected own message', data
+    # authentic messages of the peer that this endpoint has ALREADY processed, with the header rewritten and everything behind it - ciphertext and
+    # checksum - untouched (a verdict remembered for the checksum, the ciphertext or the Message ID would let them through)
+    for k, prev in enumerate(reversed(accepted[-4:])):
+        if len(prev) < 28 or prev[18] == 34 or prev[:16] != bytes(sa.spi_i) + bytes(sa.spi_r):
+            continue
+        old_mid = int.from_bytes(prev[20:24], 'big')
+        for mid in mids:
+            for xchg in (prev[18], 37 if prev[18] != 37 else 36):
+                for flags in (prev[19], prev[19] ^ 0x20):
+                    if (mid, xchg, flags) != (old_mid, prev[18], prev[19]):
+                        yield (f'processed-copy #{k} mid {old_mid}->{mid} xchg {prev[18]}->{xchg} flags {prev[19]:02x}->{flags:02x}',
+                               prev[:18] + bytes([xchg, flags]) + mid.to_bytes(4, 'big') + prev[24:])
     # another IKE_SA's authentic traffic re-addressed to this one (header rewritten, body sealed with the other IKE_SA's keys)
     other = wd.World.__dict__  # placeholder to keep flake quiet
     # corruption / truncation of an authentic message that is really in flight for this IKE_SA
